@@ -30,7 +30,12 @@
           give (bytes inside another option's payload, or a type behind offset 6)
      309  server_config.server_ip is zero (Server.Start did not write the entry: interface lookup
           failed): the reply names the pool gateway as server identifier and an all-zero source MAC,
-          userspace names its configured server address *)
+          userspace names its configured server address
+     310  a request whose hardware address (hlen bytes) has no lease is answered through the
+          subscriber_pools entry of another hardware address with the same first six bytes (the map
+          is keyed on six bytes by ebpf.MACToUint64 and mac_to_u64; userspace keys leases on hlen bytes)
+     311  answered from the circuit-id entry although the MAC entry of the requesting client holds another
+          binding (kernel: circuit-id before MAC; userspace: hardware address before circuit-id) *)
 From Coq Require Import NArith List Bool Lia.
 From Verif Require Import Base.Word.
 Import ListNotations.
@@ -483,7 +488,8 @@ Definition mdel (k : bytes) (l : rawmap) : rawmap := filter (fun kv => negb (byt
 Definition go_ip (ip : bytes) : bytes := le_bytes 4 (be_val ip).
 Definition go_u32 (v : N) : bytes := le_bytes 4 (v mod W32).
 Definition go_u64 (v : N) : bytes := le_bytes 8 (v mod W64).
-Definition go_mac_key (mac : bytes) : bytes := go_u64 (be_val (firstn 6 mac)).   (* MACToUint64 *)
+Definition go_mac_key (mac : bytes) : bytes :=                                   (* MACToUint64: 0 for fewer than 6 bytes *)
+  if Nat.ltb (length mac) 6 then zeros 8 else go_u64 (be_val (firstn 6 mac)).
 Definition go_cid_key (cid : bytes) : bytes :=                                   (* MakeCircuitIDKey *)
   firstn 32 cid ++ zeros (32 - length cid).
 
@@ -507,7 +513,9 @@ Inductive gev :=
 | GDecline (mac cid : bytes)                          (* handleDecline of an existing lease *)
 | GExpire (mac cid : bytes)                           (* cleanupExpiredLeases, one lease *)
 | GVlan (s c : N) (mac : bytes)                       (* Loader.AddVLANSubscriber with the subscriber's entry *)
-| GAge (d : N).                                       (* d seconds pass: every absolute expiry moves d closer *)
+| GAge (d : N)                                        (* d seconds pass: every absolute expiry moves d closer *)
+| GDropCid (cid : bytes).                             (* dropCircuitIDBindings (commit c878197): RemoveCircuitIDSubscriber of the
+                                                         circuit-id the replaced lease recorded *)
 
 Definition age_val (d : N) (v : bytes) : bytes :=
   match rd v 13 8 with
@@ -548,7 +556,116 @@ Definition cache_step (m : maps) (e : gev) : maps * list N :=
       | None => (m, [])
       end
   | GAge d => (set_maps m (age_map d (m_sub m)) (age_map d (m_vlan m)) (age_map d (m_cid m)) (m_pool m) (m_cfg m), [])
+  | GDropCid cid =>
+      (set_maps m (m_sub m) (m_vlan m)
+                (match cid with [] => m_cid m | _ => mdel (go_cid_key cid) (m_cid m) end)
+                (m_pool m) (m_cfg m), [])
   end.
+
+(* ================================================================== Part 2b: the lease table *)
+(* What dhcp.Server keeps beside the cache and what decides WHICH cache entries a message touches:
+   s.leases (key: the client hardware address, hlen bytes as the codec hands them over) and the
+   circuit-ID index s.leasesByCircuitID (key: the full circuit-id, value: the lease OBJECT - modelled
+   by a copy carrying the object's identity [l_id]).  [slow_step] turns one handled message into the
+   cache events of Part 2:
+     SAck      handleRequest reached the ACK branch (whether it does - pool, NAK rules - is observed);
+               [cidreq] is the circuit-id of this request's option 82 ([] when it has none),
+               [relayed] is giaddr <> 0.  The existing lease is found by hardware address, else for a
+               relayed request by the circuit-ID index; a request without circuit-id keeps the one of
+               the existing lease; a lease replaced under another circuit-id drops the old circuit's
+               bindings when the index still points at it (dropCircuitIDBindings)
+     SRelease / SDecline / SExpire   handleRelease / handleDecline / cleanupExpiredLeases for that
+               hardware address: nothing happens without a lease; otherwise the lease, its index entry
+               (unconditionally: delete(s.leasesByCircuitID, key)) and its cache entries go. *)
+Section Assoc.
+  Context {A : Type}.
+  Fixpoint aget (k : bytes) (l : list (bytes * A)) : option A :=
+    match l with
+    | [] => None
+    | (k', v) :: tl => if bytes_eqb k' k then Some v else aget k tl
+    end.
+  Fixpoint aput (k : bytes) (v : A) (l : list (bytes * A)) : list (bytes * A) :=
+    match l with
+    | [] => [(k, v)]
+    | (k', v') :: tl =>
+        if bytes_eqb k' k then (k, v) :: tl
+        else if lex_ltb k k' then (k, v) :: l
+        else (k', v') :: aput k v tl
+    end.
+  Definition adel (k : bytes) (l : list (bytes * A)) : list (bytes * A) :=
+    filter (fun kv => negb (bytes_eqb (fst kv) k)) l.
+End Assoc.
+
+Record lease := { l_id : N; l_mac : bytes; l_ip : bytes; l_cid : bytes }.
+Record ltab := { lt_leases : list (bytes * lease); lt_bycid : list (bytes * lease); lt_next : N }.
+Definition lt_init : ltab := {| lt_leases := []; lt_bycid := []; lt_next := 1 |}.
+
+Inductive sev :=
+| SAck (hw ip : bytes) (pool vlan class expiry : N) (cidreq : bytes) (relayed : bool)
+| SRelease (hw : bytes)
+| SDecline (hw : bytes)
+| SExpire (hw : bytes).
+
+Definition end_lease (t : ltab) (hw : bytes) (ev : bytes -> bytes -> gev) : ltab * list gev :=
+  match aget hw (lt_leases t) with
+  | None => (t, [])
+  | Some l =>
+      ({| lt_leases := adel hw (lt_leases t);
+          lt_bycid := match l_cid l with [] => lt_bycid t | _ => adel (l_cid l) (lt_bycid t) end;
+          lt_next := lt_next t |}, [ev hw (l_cid l)])
+  end.
+
+Definition is_nil (b : bytes) : bool := match b with [] => true | _ => false end.
+
+Definition slow_step (t : ltab) (e : sev) : ltab * list gev :=
+  match e with
+  | SAck hw ip pool vlan class ex cidreq relayed =>
+      let existing :=
+        match aget hw (lt_leases t) with
+        | Some l => Some l
+        | None => if relayed && negb (is_nil cidreq) then aget cidreq (lt_bycid t) else None
+        end in
+      let cid := match cidreq, existing with
+                 | [], Some l => l_cid l
+                 | _, _ => cidreq
+                 end in
+      let l' := {| l_id := lt_next t; l_mac := hw; l_ip := ip; l_cid := cid |} in
+      (* dropCircuitIDBindings(existing) *)
+      let '(ix, drop) :=
+        match existing with
+        | Some l =>
+            if negb (is_nil (l_cid l)) && negb (bytes_eqb (l_cid l) cid) then
+              match aget (l_cid l) (lt_bycid t) with
+              | Some o => if l_id o =? l_id l then (adel (l_cid l) (lt_bycid t), [GDropCid (l_cid l)])
+                          else (lt_bycid t, [])
+              | None => (lt_bycid t, [])
+              end
+            else (lt_bycid t, [])
+        | None => (lt_bycid t, [])
+        end in
+      ({| lt_leases := aput hw l' (lt_leases t);
+          lt_bycid := if is_nil cid then ix else aput cid l' ix;
+          lt_next := lt_next t + 1 |},
+       drop ++ [GAck hw ip pool vlan class ex cid])
+  | SRelease hw => end_lease t hw GRelease
+  | SDecline hw => end_lease t hw GDecline
+  | SExpire hw => end_lease t hw GExpire
+  end.
+
+(* the harness rewrites the maps between Go order and network order around guarded probes: every IPv4
+   word reversed in place (an involution); [m_origin] says which form the state is in *)
+Definition rev4_at (off : nat) (v : bytes) : bytes :=
+  match rd v off 4 with
+  | Some w => firstn off v ++ rev w ++ skipn (off + 4) v
+  | None => v
+  end.
+Definition swap_vals (g : bytes -> bytes) (l : rawmap) : rawmap := map (fun kv => (fst kv, g (snd kv))) l.
+Definition swap_maps (m : maps) : maps :=
+  {| m_sub := swap_vals (rev4_at 4) (m_sub m); m_vlan := swap_vals (rev4_at 4) (m_vlan m);
+     m_cid := swap_vals (rev4_at 4) (m_cid m);
+     m_pool := swap_vals (fun v => rev4_at 16 (rev4_at 12 (rev4_at 8 (rev4_at 0 v)))) (m_pool m);
+     m_cfg := match m_cfg m with Some c => Some (rev4_at 8 c) | None => None end;
+     m_origin := if m_origin m =? 0 then 1 else 0 |}.
 
 (* ================================================================== harness-facing step *)
 (* what the real userspace server did with the same request in the same state (observation, not used
@@ -559,29 +676,97 @@ Record slowview := { sv_kind : N; sv_yiaddr : bytes; sv_sid : bytes; sv_mask : b
 
 Inductive op :=
 | Ev (e : gev)
+| Sv (e : sev)                    (* one message handled by the real server *)
 | SetMaps (m : maps)
+| Swap                            (* Go order <-> network order of every IPv4 word *)
+| Snap                            (* observation only: maps, lease table, circuit-ID index *)
 | Probe (f : bytes) (now unow : N) (sv : slowview).
 
 Inductive out :=
 | OUnit
 | ODump (s v c p : rawmap) (cfg : bytes)
+| OSnap (s v c p : rawmap) (cfg : bytes) (ls ix : list (bytes * (bytes * bytes)))   (* key, (hw, ip) *)
+| OSnapH (h : N)                       (* the same observation as a 64-bit FNV-1a digest of its serialisation
+                                          (case files of ordinary runs; replays carry the full form) *)
 | OXdp (v : N) (f : option bytes)      (* None: the frame is unchanged *)
 | OOob.
 
-Definition state := maps.
+Record state := { s_m : maps; s_l : ltab }.
 Definition init : state :=
-  {| m_sub := []; m_vlan := []; m_cid := []; m_pool := []; m_cfg := Some (zeros 16); m_origin := 0 |}.
+  {| s_m := {| m_sub := []; m_vlan := []; m_cid := []; m_pool := []; m_cfg := Some (zeros 16); m_origin := 0 |};
+     s_l := lt_init |}.
 
 Definition dump_of (m : maps) : out :=
   ODump (m_sub m) (m_vlan m) (m_cid m) (m_pool m) (match m_cfg m with Some c => c | None => [] end).
+Definition lview (l : list (bytes * lease)) : list (bytes * (bytes * bytes)) :=
+  map (fun kl => (fst kl, (l_mac (snd kl), l_ip (snd kl)))) l.
+Definition snap_of (s : state) : out :=
+  let m := s_m s in
+  OSnap (m_sub m) (m_vlan m) (m_cid m) (m_pool m) (match m_cfg m with Some c => c | None => [] end)
+        (lview (lt_leases (s_l s))) (lview (lt_bycid (s_l s))).
+
+Fixpoint cache_steps (m : maps) (es : list gev) : maps :=
+  match es with
+  | [] => m
+  | e :: tl => cache_steps (fst (cache_step m e)) tl
+  end.
+
+(* ghost marker 310: the program answered a request whose hardware address (hlen bytes, as the codec
+   hands it to the server) has no lease, through the subscriber_pools entry that a lease of ANOTHER
+   hardware address with the same first six bytes wrote (both sides key that map on six bytes) *)
+Definition hw_of (f : bytes) (p : pkt) : option bytes :=
+  match rd8 f (p_dhcp p + 2), rd f (p_dhcp p + 28) 16 with
+  | Some hl, Some ch => Some (firstn (Nat.min (N.to_nat hl) 16) ch)
+  | _, _ => None
+  end.
+Definition marker310 (t : ltab) (f : bytes) : list N :=
+  match parse f with
+  | Parsed p =>
+      match hw_of f p, rd f (p_dhcp p + 28) 6 with
+      | Some hw, Some ch =>
+          match aget hw (lt_leases t) with
+          | Some _ => []
+          | None => if existsb (fun kl => bytes_eqb (go_mac_key (fst kl)) (rev ch ++ [0; 0])) (lt_leases t)
+                    then [310] else []
+          end
+      | _, _ => []
+      end
+  | _ => []
+  end.
+
+(* ghost marker 311: the program answered from the circuit_id_subscribers entry while subscriber_pools
+   holds a DIFFERENT binding for the requesting hardware address: the kernel looks a relayed request up
+   by circuit-id first, userspace by hardware address first (two subscribers seen behind one circuit) *)
+Definition marker311 (m : maps) (f : bytes) : list N :=
+  match parse f with
+  | Parsed p =>
+      match (if p_tagged p then lookup (le16b (p_vid p) ++ le16b (p_ivid p)) (m_vlan m) else None) with
+      | Some _ => []
+      | None =>
+          match extract_cid f (p_dhcp p + 240), rd f (p_dhcp p + 28) 6 with
+          | Some (Some k), Some ch =>
+              match lookup k (m_cid m), lookup (rev ch ++ [0; 0]) (m_sub m) with
+              | Some a, Some a' => if bytes_eqb (firstn 8 a) (firstn 8 a') then [] else [311]
+              | _, _ => []
+              end
+          | _, _ => []
+          end
+      end
+  | _ => []
+  end.
 
 Definition step (s : state) (o : op) : state * out * list N :=
   match o with
-  | Ev e => let '(m, mk) := cache_step s e in (m, dump_of m, mk)
-  | SetMaps m => (m, OUnit, [])
+  | Ev e => let '(m, mk) := cache_step (s_m s) e in ({| s_m := m; s_l := s_l s |}, dump_of m, mk)
+  | Sv e => let '(t, es) := slow_step (s_l s) e in
+            let m := cache_steps (s_m s) es in ({| s_m := m; s_l := t |}, dump_of m, [])
+  | SetMaps m => ({| s_m := m; s_l := s_l s |}, OUnit, [])
+  | Swap => ({| s_m := swap_maps (s_m s); s_l := s_l s |}, OUnit, [])
+  | Snap => (s, snap_of s, [])
   | Probe f now unow _ =>
-      match xdp s now unow f with
-      | Done v f' mk => (s, OXdp v (if bytes_eqb f' f then None else Some f'), mk)
+      match xdp (s_m s) now unow f with
+      | Done v f' mk => (s, OXdp v (if bytes_eqb f' f then None else Some f'),
+                         mk ++ (if v =? XDP_TX then marker310 (s_l s) f ++ marker311 (s_m s) f else []))
       | OOB => (s, OOob, [])
       end
   end.
@@ -592,6 +777,23 @@ Fixpoint rawmap_eqb (x y : rawmap) : bool :=
   | (k, v) :: x', (k', v') :: y' => bytes_eqb k k' && bytes_eqb v v' && rawmap_eqb x' y'
   | _, _ => false
   end.
+Fixpoint lview_eqb (x y : list (bytes * (bytes * bytes))) : bool :=
+  match x, y with
+  | [], [] => true
+  | (k, (a, b)) :: x', (k', (a', b')) :: y' => bytes_eqb k k' && bytes_eqb a a' && bytes_eqb b b' && lview_eqb x' y'
+  | _, _ => false
+  end.
+
+(* serialisation of a snapshot (lengths in front of every string and list) and its FNV-1a digest *)
+Definition ser_b (b : bytes) : bytes := N.of_nat (length b) :: b.
+Definition ser_map (l : rawmap) : bytes :=
+  N.of_nat (length l) :: flat_map (fun kv => ser_b (fst kv) ++ ser_b (snd kv)) l.
+Definition ser_lview (l : list (bytes * (bytes * bytes))) : bytes :=
+  N.of_nat (length l) :: flat_map (fun x => ser_b (fst x) ++ ser_b (fst (snd x)) ++ ser_b (snd (snd x))) l.
+Definition fnv64 (bs : bytes) : N :=
+  fold_left (fun h b => N.land (N.lxor h b * 1099511628211) 18446744073709551615) bs 14695981039346656037.
+Definition snap_digest (s v c p : rawmap) (g : bytes) (ls ix : list (bytes * (bytes * bytes))) : N :=
+  fnv64 (ser_map s ++ ser_map v ++ ser_map c ++ ser_map p ++ ser_b g ++ ser_lview ls ++ ser_lview ix).
 
 (* Model output vs implementation output; the harness records a dump only where it took one *)
 Definition out_eqb (model impl : out) : bool :=
@@ -599,6 +801,10 @@ Definition out_eqb (model impl : out) : bool :=
   | _, OUnit => match model with OUnit | ODump _ _ _ _ _ => true | _ => false end
   | ODump s v c p g, ODump s' v' c' p' g' =>
       rawmap_eqb s s' && rawmap_eqb v v' && rawmap_eqb c c' && rawmap_eqb p p' && bytes_eqb g g'
+  | OSnap s v c p g ls ix, OSnap s' v' c' p' g' ls' ix' =>
+      rawmap_eqb s s' && rawmap_eqb v v' && rawmap_eqb c c' && rawmap_eqb p p' && bytes_eqb g g'
+      && lview_eqb ls ls' && lview_eqb ix ix'
+  | OSnap s v c p g ls ix, OSnapH h => snap_digest s v c p g ls ix =? h
   | OXdp v f, OXdp v' f' =>
       (v =? v') && match f, f' with
                    | None, None => true
